@@ -494,6 +494,10 @@ class Runner:
         self.seed = spec['seed']
         self.nappend = 0
         self.rng2 = random.Random(spec['seed'] ^ 0x5eed)
+        #: a second connection of the same user through which a quarter of
+        #: the mutating commands go (the program is still one sequence)
+        self.c2: Conn | None = None
+        self.rng_conn = random.Random(spec['seed'] ^ 0xc0de)
         self.full_dumps = bool(spec.get('script')) or spec.get('full', False)
         self.avoid = set(spec.get('avoid') or ())
         self.used: list[str] = []     # names the program has used so far
@@ -503,7 +507,14 @@ class Runner:
     async def cmd(self, rest: bytes, judged: str | None = None) -> Any:
         """``judged`` = the command is a namespace command under test (not an
         observation): no tagged answer is then outside every allowed set."""
-        r = await self.c.simple(rest)
+        conn = self.c
+        if self.c2 is not None and judged is not None and not self.c2.dead \
+                and rest.split(b' ')[0] in (b'CREATE', b'DELETE', b'RENAME',
+                                            b'SUBSCRIBE', b'UNSUBSCRIBE') \
+                and self.rng_conn.random() < 0.3:
+            conn = self.c2
+            self.ctx.count('commands_via_second_connection')
+        r = await conn.simple(rest)
         self.ctx.count('commands')
         if r.tagged is None:
             verb = rest.split(b' ')[0].decode('latin-1')
@@ -1558,6 +1569,15 @@ async def run_c11(spec: dict[str, Any], ctx: Ctx, info: dict[str, Any]) \
             info['aborted'] = 'login-failed'
             return
         run = Runner(ctx, c, spec)
+        if spec.get('two_conns'):
+            c2 = Conn(2, Sched())
+            c2.start(env.imap)
+            await c2.greeting()
+            if (await c2.simple(b'LOGIN u1 pw1')).ok:
+                run.c2 = c2
+                # the first connection has listed before anything changes
+                await c.simple(b'LIST "" *')
+                await c.simple(b'LSUB "" *')
         try:
             await run.run(spec)
         except Stop:
@@ -1635,6 +1655,8 @@ class C11(Check):
             spec = {'seed': seed * 1_000_003 + i, 'backend': backend,
                     'nsteps': rng.randint(4, 20),
                     'full': rng.random() < 0.2}
+            if i % 3 == 2:
+                spec['two_conns'] = True
             av = sorted({sw for sw, only in avoid
                          if not only or backend in only})
             if av:
